@@ -31,7 +31,7 @@ def run(ctx, rep):
     try:
         rf, tab = _codecs.reader(F)
         wf, rows = _codecs.w1_rows(F, text=False)
-        nrows = _codecs.normalise(rows)
+        nrows = _codecs.normalise(rows, F)
     except codec.ShapeChanged as e:
         rep.ob("C04.roundtrip", "extract codec tables", "undecided", "ANCHOR-SHAPE-CHANGED: %s" % e, None)
         return
